@@ -1,6 +1,6 @@
 #!/bin/bash
 # usage: trymut.sh <patch.diff> <property-id>...   applies the patch to /repo, runs the quick checks, reverts.
-patch=$1; shift
+patch=$(readlink -f "$1"); shift
 cd /repo || exit 3
 if [ -n "$(git status --porcelain --untracked-files=no)" ]; then echo "/repo not clean"; exit 3; fi
 git apply "$patch" || { echo "patch does not apply"; exit 3; }
